@@ -6,6 +6,7 @@ from checks import gpbft_common as g
 def run(ctx):
     ctx.prove()
     g.network(ctx, "C02-")
+    g.validation_gate(ctx)
     return ctx.finish(
         rule=g.RULE + " Oracle C02: every decision is non-bottom, starts at the base, and is a prefix of an honest input.",
         trusted_base=g.TRUSTED + [
